@@ -232,7 +232,7 @@ def sessStep (s : S) (f : List String) : S × List String :=
   | ["readall"] =>
     match s.readAll with
     | (s, .ok bs) => done s [s!"readall ok {hexOrDash bs}"]
-    | (s, .error e) => done s [s!"readall err {errStr e}"]
+    | (s, .error e) => if e.contains "unsupported" then (s, ["unsupported block inside ReadAll"]) else done s [s!"readall err {errStr e}"]
   | [op@"pal", retain, topic, msg] | [op@"peo", retain, topic, msg] =>
     match ofHex topic, ofHex msg with
     | some t, some m =>
